@@ -30,3 +30,23 @@ Theorem c04_session : forall payload p a t',
   end.
 Proof. exact after_stmt_view. Qed.
 Print Assumptions c04_session.
+
+(** * Relational composition (the statement of C04 itself), proved about the full graph model (Holder/Composition.v).
+    For every provider and every list of statement holders without DROP/RENAME whose columns are resolved at statement
+    level and whose graphs are closed ([c04_hyps], executable): the script-level graph exists, its column->column edges are
+    exactly the union of the statements' edges, and a pair (s, t) is reported exactly when s is fed by no statement, t is
+    consumed by no statement (and owned by a table when sub-query ends are excluded), and t is reachable from s by a
+    non-empty composition of per-statement dataflows - in any order, with repetition: columns that are not consumed
+    downstream end at the intermediate table.  No acyclicity hypothesis (columns on a cycle are never roots or leaves:
+    K-C04-2 is what the theorem says about cycles).  Each hypothesis is justified by a counterexample in
+    Holder/CompDefs.v; unresolved columns that get resolved at script level are outside (union false by nature: K-C04-1). *)
+From SV Require Import Holder.CompDefs Holder.Composition.
+
+Theorem c04_pairs_are_the_composition : forall p hs, c04_hyps hs = true ->
+  exists g, build p hs = BOk g /\
+    (forall a b, col_edge g a b = true <-> exists h, In h hs /\ col_edge (hg h) a b = true) /\
+    forall b s t,
+      reports g b s t <->
+      ~ fed hs s /\ ~ consumed hs t /\ (b = true -> parent_is KTable t = true) /\ composed hs s t.
+Proof. exact c04_main. Qed.
+Print Assumptions c04_pairs_are_the_composition.
